@@ -103,6 +103,10 @@ type Proc struct {
 	Mkdirs           []string
 	Mknods           []string
 	CloneFlags       uintptr
+	Stopped          bool   // in a ptrace stop, waiting for the tracer
+	StopStatus       uint32 // wait status of the pending stop
+	StopReported     bool
+	Continued        int
 }
 
 type Kernel struct {
@@ -118,6 +122,7 @@ type Kernel struct {
 	ExecFails       bool // the program file is not executable (ENOEXEC/EACCES from execve)
 	Trace           []string
 	HostEuid        int
+	TracerPresent   bool // a tracer drives the child: self-stops and exec events really stop it
 	LastStatfsFlags int64
 	// id-map files written by the parent: path -> content
 	ProcFiles map[string]string
@@ -389,6 +394,7 @@ func (k *Kernel) syscall(trap, a1, a2, a3, a4, a5, a6 uintptr) (r1, r2 uintptr, 
 			return errRet, 0, syscall.EPERM
 		}
 		p.Sid, p.Pgid = p.Pid, p.Pid
+		sym.Notef("pid %d: setsid (own process group from now on)", p.Pid)
 		return uintptr(p.Pid), 0, 0
 
 	case syscall.SYS_IOCTL:
@@ -537,6 +543,9 @@ func (k *Kernel) syscall(trap, a1, a2, a3, a4, a5, a6 uintptr) (r1, r2 uintptr, 
 		if int(a1) == p.Pid && syscall.Signal(a2) == syscall.SIGSTOP {
 			p.SelfStopped = true
 			p.log("stop-self")
+			if k.TracerPresent && p.Traceme {
+				k.ptraceStop(p, uint32(syscall.SIGSTOP)<<8|0x7f)
+			}
 			return 0, 0, 0
 		}
 		return errRet, 0, syscall.EPERM
@@ -605,6 +614,10 @@ func (k *Kernel) sysExec(p *Proc, path string, fd int, emptyPath bool) (uintptr,
 	}
 	p.Execed = true
 	p.Released = true
+	if k.TracerPresent && p.Traceme {
+		// PTRACE_EVENT_EXEC stop (the tracer set PTRACE_O_TRACEEXEC)
+		p.StopStatus, p.Stopped, p.StopReported = uint32(4)<<16|uint32(5)<<8|0x7f, true, false
+	}
 	p.ExecPath, p.ExecFd, p.ExecAtEmptyPath = path, fd, emptyPath
 	p.ExecFds = map[int]*FDEnt{}
 	for n, e := range p.Fds {
@@ -625,6 +638,42 @@ func (k *Kernel) sysExec(p *Proc, path string, fd int, emptyPath bool) (uintptr,
 	}
 	sym.ExitThread(0) // the launcher code ends here; the program is abstract
 	return 0, 0, 0
+}
+
+// ptraceStop parks the calling process in a ptrace stop until the tracer resumes it (or it is killed).
+func (k *Kernel) ptraceStop(p *Proc, status uint32) {
+	p.StopStatus, p.Stopped, p.StopReported = status, true, false
+	c := p.Continued
+	sym.WaitUntil(func() bool { return p.Continued > c || p.State != StRunning })
+	if p.State != StRunning {
+		sym.ExitThread(137)
+	}
+}
+
+// KillGroup implements kill(-pgid, sig) / kill(pid, sig) for the tracer side.
+func (k *Kernel) KillGroup(pid int, sig syscall.Signal) error {
+	sym.Yield()
+	hit := false
+	for _, t := range k.Procs {
+		if t.State != StRunning {
+			continue
+		}
+		if (pid < 0 && t.Pgid == -pid) || (pid > 0 && t.Pid == pid) {
+			hit = true
+			if sig == syscall.SIGKILL {
+				t.KilledBy = 9
+				k.exit(t, 0)
+				t.Stopped = false
+				sym.KillPid(t.Pid)
+			}
+		}
+	}
+	if !hit {
+		sym.Notef("kill(%d, %d) = ESRCH: no such process (group)", pid, int(sig))
+		return syscall.ESRCH
+	}
+	sym.Notef("kill(%d, %d) delivered", pid, int(sig))
+	return nil
 }
 
 // K-SOCK (stream): read blocks until data or until every writer end is closed (EOF).
